@@ -245,8 +245,34 @@ Definition eval_pred (p : pred) (id : Z) (version : Z) (ntags : nat) : bool :=
   else if c =? 7 then (pr_a p <=? id) && (id <=? pr_b p)          (* an id range (bounding-range filter) *)
   else true.
 
+(* predicates that read EVERY field of the element (wave 8): refs = way node ids / member refs,
+   coords = (lat, lon) in nanodegrees of the node / of the way nodes.
+   8 a: at least a refs; 9: closed (>= 2 refs, first = last); 10 a: some ref = a; 11: visible;
+   12: has a timestamp; 13: changeset even; 14: uid even; 15: user name not empty;
+   16: node: lat + lon even; way / relation: some coordinate pair is not (0, 0);
+   17: some tag has an empty key or an empty value *)
+Definition is_nilb {A} (l : list A) : bool := match l with [] => true | _ => false end.
+Definition eval_full (p : pred) (isnode : bool) (id : Z) (i : info) (tags : list tag) (refs : list Z)
+  (coords : list (Z * Z)) : bool :=
+  let c := pr_code p in
+  if c <? 8 then eval_pred p id (i_version i) (length tags)
+  else if c =? 8 then pr_a p <=? Z.of_nat (length refs)
+  else if c =? 9 then match refs with a :: _ :: _ => a =? last refs a | _ => false end
+  else if c =? 10 then existsb (Z.eqb (pr_a p)) refs
+  else if c =? 11 then i_visible i
+  else if c =? 12 then match i_ts i with Some _ => true | None => false end
+  else if c =? 13 then Z.even (i_cs i)
+  else if c =? 14 then Z.even (i_uid i)
+  else if c =? 15 then negb (is_nilb (i_user i))
+  else if c =? 16 then
+    if isnode then match coords with (la, lo) :: _ => Z.even (la + lo) | [] => true end
+    else existsb (fun x => negb ((fst x =? 0) && (snd x =? 0))) coords
+  else if c =? 17 then existsb (fun t => is_nilb (fst t) || is_nilb (snd t)) tags
+  else true.
+
 Definition cfg_of (sn sw sr : bool) (pn pw pr : pred) : cfg :=
   mkCfg sn sw sr
-        (fun n => eval_pred pn (n_id n) (i_version (n_info n)) (length (n_tags n)))
-        (fun w => eval_pred pw (w_id w) (i_version (w_info w)) (length (w_tags w)))
-        (fun r => eval_pred pr (r_id r) (i_version (r_info r)) (length (r_tags r))).
+        (fun n => eval_full pn true (n_id n) (n_info n) (n_tags n) [] [(n_lat n, n_lon n)])
+        (fun w => eval_full pw false (w_id w) (w_info w) (w_tags w) (map wn_id (w_nodes w))
+                            (map (fun x => (wn_lat x, wn_lon x)) (w_nodes w)))
+        (fun r => eval_full pr false (r_id r) (r_info r) (r_tags r) (map m_ref (r_members r)) []).
